@@ -171,7 +171,15 @@ def gen_directed(rng, si):
     if where == 'other':
         c['kind'] = 'piece-unsampled'
     c['pieces'] = pieces_of(name, single, c['order'], c['data'], L)
-    return {'si': si, 'name': name, 'single': single, 'data': data, 'order': order, 'bounds': (None, None), 'cands': [c], 'shape': 'file', 'cb': rng.choice(['none', 'passive']),
+    cands = [c]
+    if not single and rng.random() < 0.5:
+        # a second candidate with the same piece length: faithful, but listing the files in another order than the first one
+        # (whatever the search remembers about the content from the first candidate belongs to another stream layout)
+        o2 = list(reversed(c['order'])) if rng.random() < 0.6 else rng.sample(order, len(order))
+        c2 = {'kind': 'faithful', 'name': name, 'single': single, 'data': dict(data), 'order': o2, 'L': L, 'id': 1}
+        c2['pieces'] = pieces_of(name, single, o2, c2['data'], L)
+        cands.append(c2)
+    return {'si': si, 'name': name, 'single': single, 'data': data, 'order': order, 'bounds': (None, None), 'cands': cands, 'shape': 'file', 'cb': rng.choice(['none', 'passive']),
             'damage': False, 'own_extra': False}
 
 
@@ -434,7 +442,7 @@ def run(ck, model_ok):
     quick = ck.tier == 'quick'
     m = Model()
     recs = []
-    n = 90 if quick else 1200
+    n = 75 if quick else 1200
     batch = 30
     for si in range(n):
         rng = random.Random(f'{ck.seed}-{ck.tier}-{si}')       # one stream per scenario: replayable in isolation
